@@ -221,6 +221,7 @@ func (cl *cluster) apply(ev string) {
 		cl.nRegs++
 		cl.failSig = f[0] == "RegF"
 		nv := cl.nodes[i].View()
+		cl.regTruth[i] = nv.Rev
 		st := "closed"
 		if i < len(cl.cfg.States) && cl.cfg.States[i] != "" {
 			st = cl.cfg.States[i]
